@@ -646,6 +646,41 @@ def check_pins(ctx):
     ctx.notes["source_pins_checked"] = n
 
 
+def translate(ctx):
+    p = subprocess.run([sys.executable, os.path.join(VERIF, "tools/translate_c02.py")], capture_output=True, text=True)
+    ctx.notes["translate_c02"] = (p.stdout + p.stderr).strip()[-300:]
+    if p.returncode != 0:
+        ctx.failed_obligations.append("translator translate_c02.py failed: " + (p.stdout + p.stderr).strip()[-300:])
+
+
+def check_transform_type(ctx):
+    """TransformType::try_from: the bytes the real function lets through == the generated guard, and
+    (property oracle on the implementation alone) all of them are declared discriminants"""
+    # one byte per line: a byte that is not a variant aborts a checked build inside the transmute
+    # (validity check of the debug profile); the release build returns Ok
+    outs = run_lines_robust([ctx.harness_bin("c02")], [f"ttype1 {v}" for v in range(256)], per_line_timeout=20)
+    outs_rel = run_lines_robust([ctx.harness_bin("c02", release=True)], [f"ttype1 {v}" for v in range(256)], per_line_timeout=20)
+    acc = [v for v in range(256) if not ((outs[v] or "").startswith("ttype1 err") and (outs_rel[v] or "").startswith("ttype1 err"))]
+    impl = [f"checked: {[(v, outs[v]) for v in acc[-3:]]} release: {[(v, outs_rel[v]) for v in acc[-3:]]}"]
+    src = open(os.path.join(REPO, "crates/jxl-vardct/src/dct_select.rs")).read()
+    em = re.search(r"pub enum TransformType\s*\{(.*?)\}", src, re.S)
+    nvar = len([x for x in re.sub(r"//[^\n]*", "", em.group(1)).split(",") if x.strip()]) if em else 0
+    ctx.case(("ttype", tuple(acc)), nontrivial=True)
+    ctx.count("ttype:accepted-bytes", len(acc))
+    bad = [v for v in acc if v >= nvar]
+    if bad:
+        ctx.violation("byte-transmuted-into-an-enum-without-such-a-variant",
+                      f"TransformType::try_from accepts {bad} but the enum has {nvar} variants",
+                      {"ops": [f"ttype1 {v}" for v in bad], "impl": impl[:1], "accepted_not_variants": bad,
+                       "how": "echo 'ttype1 <byte>' | harness/target/{debug,release}/c02 ; jxl_vardct::TransformType::try_from(<byte>)"},
+                      key="c02:transmute-invalid-enum")
+    if ctx.lean_ok:
+        mo, rc2, err2 = ctx.run_model("c02", ["ttype"])
+        mm = re.match(r"ttype variants=(\d+) accepted=([\d,]*)", mo[0] if mo else "")
+        if not mm or [int(x) for x in mm.group(2).split(",") if x] != acc or int(mm.group(1)) != nvar:
+            ctx.failed_obligations.append(f"correspondence TransformType::try_from vs generated guard differs: impl {impl[:1]} model {mo[:1]}")
+
+
 def check_plans(ctx):
     """evaluate the Lean access plans for all tested sizes (redundant with the theorems; evidence
     that the executable definitions are the ones the theorems speak about)"""
@@ -752,6 +787,7 @@ def valgrind_run(ctx):
 
 
 def run(ctx):
+    translate(ctx)
     ctx.lean_ok = ctx.lean_build(MODULES)
     if ctx.lean_ok:
         ctx.audit(MODULES, ctx.update_lock)
@@ -771,6 +807,7 @@ def run(ctx):
     check_pins(ctx)
     if ctx.lean_ok:
         check_plans(ctx)
+    check_transform_type(ctx)
     run_grid_sequences(ctx, 700 if ctx.quick else 7000)
     run_bitstream(ctx, 400 if ctx.quick else 4000)
     api_wrap_observations(ctx)
